@@ -154,28 +154,50 @@ def run_property(prop: str, tier: str, only: Optional[str] = None, jobs: int = 0
 
     ctx = mp.get_context("spawn")
     hard_wall = max(o.budget for o in obs) * budget_scale * 4 + 600 if obs else 600
-    with ProcessPoolExecutor(max_workers=jobs, mp_context=ctx) as ex:
-        futs = {ex.submit(_worker_task, prop, tier, o.oid, i, known_fps, budget_scale): (o, i) for (o, i) in tasks}
+    # Workers are recycled after a number of tasks (CrossHair/z3 state grows over thousands of obligations), and a pool
+    # broken by a worker that died (e.g. killed by the kernel under memory pressure) is rebuilt for the tasks not yet
+    # done; a task that was in flight when the pool broke twice is reported inconclusive, never as a verdict.
+    pending = list(tasks)
+    attempts: Dict[Any, int] = {}
+    deadline_all = time.perf_counter() + hard_wall * max(1, (len(tasks) + jobs - 1) // jobs)
+    while pending:
+        batch, pending = pending, []
+        broken = False
+        ex = ProcessPoolExecutor(max_workers=jobs, mp_context=ctx, max_tasks_per_child=150)
         try:
-            for fut in as_completed(futs, timeout=hard_wall * max(1, (len(tasks) + jobs - 1) // jobs)):
-                o, i = futs[fut]
-                try:
-                    r = fut.result()
-                except BaseException as e:  # noqa: BLE001
-                    r = {"oid": o.oid, "pidx": i, "status": "harness_error", "detail": "pool: %r" % (e,)}
-                results.append(r)
-                if verbose:
-                    print("  [%s#%d] %s paths=%s %.1fs %s" % (r["oid"], r["pidx"], r.get("status"), r.get("paths"), r.get("task_wall_s", 0), (r.get("detail") or "")[:200].replace("\n", " | ")), flush=True)
-        except TimeoutError:
-            for fut, (o, i) in futs.items():
-                if not fut.done():
-                    fut.cancel()
-                    results.append({"oid": o.oid, "pidx": i, "status": "inconclusive", "detail": "hard wall timeout in pool"})
-            for p in list(getattr(ex, "_processes", {}).values()):
-                try:
-                    p.kill()
-                except Exception:
-                    pass
+            futs = {ex.submit(_worker_task, prop, tier, o.oid, i, known_fps, budget_scale): (o, i) for (o, i) in batch}
+            try:
+                for fut in as_completed(futs, timeout=max(60.0, deadline_all - time.perf_counter())):
+                    o, i = futs[fut]
+                    try:
+                        r = fut.result()
+                    except BaseException as e:  # noqa: BLE001
+                        if type(e).__name__ == "BrokenProcessPool":
+                            broken = True
+                            n = attempts.get((o.oid, i), 0) + 1
+                            attempts[(o.oid, i)] = n
+                            if n <= 2:
+                                pending.append((o, i))
+                                continue
+                            r = {"oid": o.oid, "pidx": i, "status": "inconclusive", "detail": "worker process died %d times while this task was queued or running" % n}
+                        else:
+                            r = {"oid": o.oid, "pidx": i, "status": "harness_error", "detail": "pool: %r" % (e,)}
+                    results.append(r)
+                    if verbose:
+                        print("  [%s#%d] %s paths=%s %.1fs %s" % (r["oid"], r["pidx"], r.get("status"), r.get("paths"), r.get("task_wall_s", 0), (r.get("detail") or "")[:200].replace("\n", " | ")), flush=True)
+            except TimeoutError:
+                for fut, (o, i) in futs.items():
+                    if not fut.done():
+                        fut.cancel()
+                        results.append({"oid": o.oid, "pidx": i, "status": "inconclusive", "detail": "hard wall timeout in pool"})
+                for p_ in list(getattr(ex, "_processes", {}).values()):
+                    try:
+                        p_.kill()
+                    except Exception:
+                        pass
+                pending = []
+        finally:
+            ex.shutdown(wait=not broken, cancel_futures=True)
 
     obmap = {o.oid: o for o in obs}
     os.makedirs(os.path.join(OUT, "replays"), exist_ok=True)
